@@ -92,9 +92,9 @@ def audit(prop, theorems):
     details, failures, ok = [], [], 0
     # parse: "'name' depends on axioms: [a, b]" or "'name' does not depend on any axioms"
     found = {}
-    for m in re.finditer(r"'([^']+)' depends on axioms: \[([^\]]*)\]", out, flags=re.S):
+    for m in re.finditer(r"'(\S+)' depends on axioms: \[([^\]]*)\]", out, flags=re.S):
         found[m.group(1)] = {a.strip() for a in m.group(2).replace("\n", " ").split(",") if a.strip()}
-    for m in re.finditer(r"'([^']+)' does not depend on any axioms", out):
+    for m in re.finditer(r"'(\S+)' does not depend on any axioms", out):
         found[m.group(1)] = set()
     for t in info["theorems"]:
         if t not in found:
